@@ -9,6 +9,7 @@ import AdfObdd.Props.C04
 import AdfObdd.Props.C05
 import AdfObdd.MemoCheckProofs
 import AdfObdd.MemoTransparent
+import AdfObdd.CallHistoryMemo
 /-! # C11 — cache transparency, handle stability, determinism across call histories
 
 Every public call only *extends* the node table and adds sound memo entries (`WF` is preserved,
@@ -253,3 +254,182 @@ end C11
 #print axioms C11.memo_audit_sound
 #print axioms C11.handles_memo_independent
 #print axioms C11.handles_memo_independent_reachable
+
+
+/-! ## call histories on ONE object
+
+`AdfObdd/CallHistory.lean` models the object (`AdfState`: shared store, `n`, `ac`, handles issued so
+far), the public calls a user can repeat on it (`Call`: grounded, complete, stable,
+stable_with_prefilter, the two counting searches, the nogood-learning search in stable and two-valued
+mode with every modelled heuristic incl. a scripted custom one, models / paths / depth / variable
+dependencies of a condition, extra formulas as a list of diagram operations) and `runCall` /
+`runCalls`, built from exactly the definitions the driver runs for the corresponding protocol lines
+(`groundedLoop StoreRA`, `completeAll`, `stableAll`, `Cli.stablePre` (= `Drv.stablePreAll`),
+`countAll`, `SM.ngSearch`, `countF` / `paths` / `depsOf`, `runOps`), threading the store.
+`Heuristic::Rand` is not modelled (nor run by the driver): the generator state is outside the model.
+Proofs: `AdfObdd/CallHistoryProofs.lean`, `AdfObdd/CallHistoryMemo.lean`. -/
+namespace C11
+open CallH
+
+/-- **invariant over call histories** (induction over the call list). After ANY history on an
+object that satisfies the invariant `Inv` (store `WF`, `ac` = `n` valid handles, issued handles
+valid): the invariant holds again; `ac` and `n` are unchanged; handles are only appended to the
+issued list; the node table only grew (`Ext`: size and every old entry kept — a prefix); and every
+handle that existed before — the statement handles `ac`, every issued handle — is still valid,
+names the same node and denotes the same Boolean function. The nogood-learning search needs no
+halting hypothesis here (`CallH.ngSearch_store`: well formed for every bound). -/
+theorem history_invariant (st : AdfState) (hi : Inv st) (h : List Call) :
+    let st' := (runCalls st h).1
+    Inv st' ∧ st'.ac = st.ac ∧ st'.n = st.n ∧ st.issued <+: st'.issued ∧ Ext st.s st'.s ∧
+    (∀ t, t < st.s.nodes.size →
+      t < st'.s.nodes.size ∧ st'.s.nodes[t]? = st.s.nodes[t]? ∧ ∀ σ, eval st'.s t σ = eval st.s t σ) ∧
+    (∀ t ∈ st.ac ++ st.issued, t < st.s.nodes.size) := by
+  intro st'
+  have ⟨hi', stp⟩ := runCalls_inv h st hi
+  refine ⟨hi', stp.ac, stp.n, stp.issued, stp.ext, fun t ht => stp.handles_stable hi t ht, ?_⟩
+  intro t ht
+  rcases List.mem_append.mp ht with h1 | h1
+  · exact hi.ac t h1
+  · exact hi.issued t h1
+
+/-- **every answer is determined by the Boolean functions of the conditions** (`CallH.Exact`): on an
+object satisfying the invariant, `grounded` returns the least fixpoint (and handles of the residual
+functions `semLoop`), `complete` the fixpoints of Γ without duplicates, grounded first, the three
+stable enumerations and both searches exactly the stable models, each once, the two-valued search
+the two-valued models (side condition `Supp` as in C05), extra formulas handles of the functions
+the operations name. -/
+theorem answers_exact (st : AdfState) (c : Call) (hi : Inv st) (hs : c.twoValued → Supp st) :
+    Exact (st.ac.map (eval st.s)) st.n c (runCall st c).1.s (runCall st c).2 :=
+  runCall_exact st c hi hs
+
+/-- **history independence**: for every history `h` and every call `c`, the answer of `c` after `h`
+agrees with the answer of `c` on the object before `h` (e.g. freshly built): `CallH.Agree` —
+grounded: same T/F/u vector and the handles denote the same residual functions; complete: no
+duplicates, same set of T/F/u vectors, same FIRST element; stable / prefilter / counting searches /
+nogood search in both modes: no duplicates, same set; queries: equal numbers; extra formulas: same
+functions; rejected requests: rejected on both sides. For a nogood search that hit its iteration
+bound on either side nothing is claimed — `ng_halts_after_history` says that does not happen for
+large bounds. -/
+theorem answers_history_independent (st : AdfState) (hi : Inv st) (h : List Call) (c : Call)
+    (hs : c.twoValued → Supp st) :
+    Agree c (runCall (runCalls st h).1 c).1.s (answerAfter st h c) (runCall st c).1.s (runCall st c).2 :=
+  history_independent st hi h c hs
+
+theorem ng_halts_after_history (st : AdfState) (hi : Inv st) (h : List Call) (heu : SM.Heu) (stable : Bool)
+    (hs : stable = false → Supp st) :
+    ∃ F0, ∀ F, F0 ≤ F → answerAfter st h (.ng heu F stable) ≠ .fuelExhausted :=
+  ng_halts_after st hi h heu stable hs
+
+/-- from the written framework: after ANY history on the freshly built object every answer is the
+definitional answer for the WRITTEN conditions (`fms.map Fm.sem`) -/
+theorem answers_exact_after_history_from_formulas (fms : List Fm) (hn : fms.length ≤ VBOT)
+    (hv : ∀ f ∈ fms, NConc.atomsLt fms.length f) (h : List Call) (c : Call) :
+    Exact (fms.map Fm.sem) fms.length c (runCall (runCalls (freshAdf fms) h).1 c).1.s
+      (answerAfter (freshAdf fms) h c) :=
+  exact_after_history_from_formulas fms hn hv h c
+
+/-! ### determinism: what a pure model can say and what it cannot
+
+(a) "The same call sequence on two objects built the same way yields the same answers in the same
+order, the same node tables and handles": for the MODEL this is congruence of the function
+`runCalls` (`same_calls_same_answers` below) and carries no information — a Lean function cannot be
+nondeterministic. What it rules in is only that the model has no hidden input: no clock, no
+address, no generator state (`Heuristic::Rand` is excluded from `Call`).
+
+(b) What could make the REAL object nondeterministic or history dependent in its emission order is
+state that is not part of the mathematical answer: the CONTENTS of the memo tables (which depend on
+everything computed before) and the iteration order of hash maps. The first is covered by a
+theorem: `answers_memo_independent_partial` — answers INCLUDING THEIR ORDER, issued handle numbers
+and the node table afterwards are the same on two objects that differ arbitrarily in the contents
+of `ite_cache` / `restrict_cache` (built on `handles_memo_independent`). The second is OUTSIDE the
+model: the model never iterates a hash map (the unique table and the memo tables are only ever
+looked up by key), exactly as `obdd.rs` / `adf.rs` never iterate `HashMap`s when computing answers;
+that the Rust code indeed does not is a fact about the source that only the correspondence run
+(handle-for-handle comparison of the driver with the real object on every explored history)
+witnesses. -/
+
+/-- (a) congruence — trivially true of any function; stated for the record only -/
+theorem same_calls_same_answers (st st' : AdfState) (h h' : List Call) (e1 : st = st') (e2 : h = h') :
+    runCalls st h = runCalls st' h' := runCalls_deterministic st st' h h' e1 e2
+
+/-- (b) full statement (every call kind) -/
+def answers_memo_independent_statement : Prop := CallH.memo_independent_statement
+
+/-- (b) proved for histories made of grounded / complete / stable / stable_with_prefilter /
+queries / extra formulas: on two objects equal up to memo CONTENTS (`MemoEq`: both stores well
+formed, same node table, same `n`, `ac`, issued handles) the answer lists are EQUAL — same vectors,
+same order, same handle numbers — and the objects are again equal up to memo contents (same node
+table). Open: the two searches (`count`, `ng`) — the lock-step lemmas for `countLogic` /
+`SM.ngIter` are not written; nothing but `restrictF_lock` and node-table reads is needed. -/
+theorem answers_memo_independent_partial (h : List Call) (st st' : AdfState) (hi : Inv st) (hm : MemoEq st st')
+    (hc : ∀ c ∈ h, ¬ c.isSearch) :
+    (runCalls st' h).2 = (runCalls st h).2 ∧ MemoEq (runCalls st h).1 (runCalls st' h).1 :=
+  runCalls_memo_independent_partial h st st' hi hm hc
+
+/-- in particular against the memo-dropped copy of any object -/
+theorem answers_memo_dropped_partial (h : List Call) (st : AdfState) (hi : Inv st) (hc : ∀ c ∈ h, ¬ c.isSearch) :
+    (runCalls (dropMemo st) h).2 = (runCalls st h).2 ∧
+    (runCalls (dropMemo st) h).1.s.nodes = (runCalls st h).1.s.nodes := by
+  have ⟨a, m⟩ := runCalls_memo_independent_partial h st _ hi (memoEq_drop st hi) hc
+  exact ⟨a, m.lk.nodes⟩
+
+/-! ### non-vacuity: a ← ¬b, b ← ¬a (two statements), non-trivial histories
+
+Stores do not kernel-reduce (`Std.HashMap`), so the theorems are instantiated; the `#guard`s
+show by evaluation what the instantiated statements speak about. -/
+
+def exFms : List Fm := [.not (.atom 1), .not (.atom 0)]
+def exHist : List Call := [.complete, .ops [.xor 2 3, .not 4], .count true, .grounded, .query 1 .models]
+
+theorem exFms_ok : exFms.length ≤ VBOT ∧ ∀ f ∈ exFms, NConc.atomsLt exFms.length f := by
+  refine ⟨by simp [exFms, VBOT], ?_⟩
+  intro f hf
+  simp only [exFms, List.mem_cons, List.mem_nil_iff, or_false] at hf
+  rcases hf with h | h <;> subst h <;> simp [NConc.atomsLt, exFms]
+
+theorem exInv : Inv (freshAdf exFms) :=
+  (fresh_inv exFms exFms_ok.1 (fun f hf => NConc.atomsOK_of_lt exFms_ok.1 f (exFms_ok.2 f hf))).1
+
+/-- the invariant theorem applies to the history … -/
+example : Inv (runCalls (freshAdf exFms) exHist).1 ∧ (runCalls (freshAdf exFms) exHist).1.ac = (freshAdf exFms).ac :=
+  ⟨(history_invariant _ exInv exHist).1, (history_invariant _ exInv exHist).2.1⟩
+
+/-- … the stable models after it are those of the fresh object, also via the two-valued nogood search
+(side condition discharged by `fresh_supp`) … -/
+example : Agree .stable (runCall (runCalls (freshAdf exFms) exHist).1 .stable).1.s
+    (answerAfter (freshAdf exFms) exHist .stable) (runCall (freshAdf exFms) .stable).1.s
+    (runCall (freshAdf exFms) .stable).2 :=
+  answers_history_independent _ exInv exHist .stable (fun h => h.elim)
+
+example : Agree (.ng .minPathsMaxVarImp 1000 false)
+    (runCall (runCalls (freshAdf exFms) exHist).1 (.ng .minPathsMaxVarImp 1000 false)).1.s
+    (answerAfter (freshAdf exFms) exHist (.ng .minPathsMaxVarImp 1000 false))
+    (runCall (freshAdf exFms) (.ng .minPathsMaxVarImp 1000 false)).1.s
+    (runCall (freshAdf exFms) (.ng .minPathsMaxVarImp 1000 false)).2 :=
+  answers_history_independent _ exInv exHist _ (fun _ => fresh_supp exFms exFms_ok.1 exFms_ok.2)
+
+/-- … and the memo-dropped copy answers a search-free history identically -/
+example : (runCalls (dropMemo (freshAdf exFms)) [.complete, .ops [.xor 2 3, .not 4], .stablePre, .grounded]).2 =
+    (runCalls (freshAdf exFms) [.complete, .ops [.xor 2 3, .not 4], .stablePre, .grounded]).2 :=
+  (answers_memo_dropped_partial _ _ exInv (by
+    intro c hc
+    simp only [List.mem_cons, List.mem_nil_iff, or_false] at hc
+    rcases hc with h | h | h | h <;> subst h <;> exact fun x => x)).1
+
+-- by evaluation: the history is not trivial (it allocates nodes, issues handles, answers differ in kind)
+#guard (runCalls (freshAdf exFms) exHist).1.s.nodes.size > (freshAdf exFms).s.nodes.size
+#guard (runCalls (freshAdf exFms) exHist).1.issued.length == 4
+#guard answerAfter (freshAdf exFms) exHist .stable == .vecs [[0, 1], [1, 0]]
+#guard (runCall (freshAdf exFms) .stable).2 == .vecs [[0, 1], [1, 0]]
+#guard (match answerAfter (freshAdf exFms) exHist (.ng .minPathsMaxVarImp 1000 false) with
+        | .ng vs _ => vs.length == 2 | _ => false)
+
+end C11
+
+#print axioms C11.history_invariant
+#print axioms C11.answers_exact
+#print axioms C11.answers_history_independent
+#print axioms C11.ng_halts_after_history
+#print axioms C11.answers_exact_after_history_from_formulas
+#print axioms C11.answers_memo_independent_partial
+#print axioms C11.answers_memo_dropped_partial
